@@ -224,7 +224,12 @@ theorem requeueBody_eq : Nsq.Gen.Codec.requeueBody = [
   "}",
   "return c.StartDeferredTimeout(msg, timeout)"] := by rfl
 
-/-- `Channel.processInFlightQueue` = `Model.Timing.scanInFlight` -/
+/-- `Channel.processInFlightQueue` = `Model.Timing.scanInFlight` — the shape after fix F16: the heap pop
+and the in-flight-map delete of one iteration are ONE critical section (`PeekAndShift`, then
+`delete(c.inFlightMessages, msg.ID)` if the map still holds that very object, all under
+`inFlightMutex`), i.e. the micro-steps `scanPopPQ true` / `scanFinishPop true` of the model. The
+pre-fix shape (two critical sections, `popInFlightMessage(msg.clientID, …)` after the hook point)
+is `scanPopPQ false` / `scanFinishPop false`, about which `Props.C04.never_early_micro_false` speaks. -/
 theorem processInFlightBody_eq : Nsq.Gen.Codec.processInFlightBody = [
   "c.exitMutex.RLock()",
   "defer c.exitMutex.RUnlock()",
@@ -235,16 +240,20 @@ theorem processInFlightBody_eq : Nsq.Gen.Codec.processInFlightBody = [
   "for ; ;  {",
   "c.inFlightMutex.Lock()",
   "msg, _ := c.inFlightPQ.PeekAndShift(t)",
+  "if msg != nil {",
+  "if m, ok := c.inFlightMessages[msg.ID]; ok && m == msg {",
+  "delete(c.inFlightMessages, msg.ID)",
+  "} else {",
+  "msg = nil",
+  "dirty = true",
+  "}",
+  "}",
   "c.inFlightMutex.Unlock()",
   "if msg == nil {",
   "goto exit",
   "}",
   "dirty = true",
   "verifPoint(\"chan.scan.afterPQPop\")",
-  "_, err := c.popInFlightMessage(msg.clientID, msg.ID)",
-  "if err != nil {",
-  "goto exit",
-  "}",
   "atomic.AddUint64(&c.timeoutCount, 1)",
   "c.RLock()",
   "client, ok := c.clients[msg.clientID]",
@@ -256,6 +265,9 @@ theorem processInFlightBody_eq : Nsq.Gen.Codec.processInFlightBody = [
   "}",
   "exit:",
   "return dirty"] := by rfl
+
+/-- which shape of the scan iteration the current tree has (pinned by `processInFlightBody_eq`) -/
+def scanFixed : Bool := true
 
 /-- `Channel.processDeferredQueue` = `Model.Timing.scanDeferred` -/
 theorem processDeferredBody_eq : Nsq.Gen.Codec.processDeferredBody = [
